@@ -1,0 +1,120 @@
+//go:build verif
+
+package pace
+
+// Contracts for gvc (contract-based deductive verification, see /verif/DESIGN.md).
+// Comment-only file, compiled only under the build tag "verif".
+//
+// PACE with generic mapping / chip authentication mapping over elliptic curves, ICAO 9303-11 §4.4:
+//   Kpi = KDF(K(password), 3); s = D(Kpi, z) (CBC, zero IV);
+//   H = SK_map * PK_map,IC;  G' = s*G + H;  PK_DH,IFD = SK_DH * G';  K = FE2OS(x(SK_DH * PK_DH,IC));
+//   KSenc/KSmac = KDF(K, 1/2);  T_IFD = MAC(KSmac, 7F49{06 oid, 86 PK_DH,IC}),  T_IC = MAC(KSmac, 7F49{06 oid, 86 PK_DH,IFD});
+//   secure messaging is installed only after the chip's T_IC matched;
+//   CAM: CA_IC = unpad(D(KSenc, IV = E(KSenc, FF..FF), A_IC)); accept iff CA_IC * PK_IC = PK_map,IC.
+
+// suite table (Go map, abstracted: trusted lookup). mapping: 0 GM, 1 IM, 2 CAM; authToken: 0 CBC (3DES), 1 CMAC (AES)
+//@ pred paceSuite(c *PaceConfig) { c != nil && (c.mapping == 0 || c.mapping == 1 || c.mapping == 2)
+//@        && ((c.cipher == 1 && c.keyLengthBits == 112 && c.authToken == 0) || (c.cipher == 2 && (c.keyLengthBits == 128 || c.keyLengthBits == 192 || c.keyLengthBits == 256) && c.authToken == 1))
+//@        && (c.mapping == 2 ==> c.cipher == 2) && len(c.oid) <= 16 }
+//@ func paceConfigGetByOID
+//@   trusted
+//@   ensures (result1 == nil) == (result0 != nil)
+//@   ensures result1 == nil ==> paceSuite(result0) && fresh(result0) && result0.oid === oid
+//@   assigns nothing
+
+//@ pred okDomain(d *DomainParams) { d != nil && d.isECDH && d.ec != nil && 8 <= d.id && d.id <= 18 && icaoCurve(ref(d.ec)) == d.id }
+
+// ICAO 9303-11 §9.5.1: ids 8..18 are the standardized elliptic curves; 0..2 (MODP groups) are not implemented; the rest is RFU / unknown.
+//@ func standardisedDomainParams
+//@   props C04 C14 C12
+//@   ensures "ec-ids-8-to-18": (result1 == nil) == (8 <= paramId && paramId <= 18)
+//@   ensures "curve-of-the-id": result1 == nil ==> okDomain(result0) && result0.id == paramId && fresh(result0)
+//@   ensures result1 != nil ==> result0 == nil
+//@   assigns nothing
+//@   safety all
+
+// selection: a supported entry is chosen whenever one is advertised; unsupported entries are skipped
+//@ func selectPaceConfig
+//@   props C04 C12
+//@   requires cardAccess != nil && cardAccess.SecurityInfos != nil ==> (forall i :: 0 <= i && i < len(cardAccess.SecurityInfos.PaceInfos) ==>
+//@        (cardAccess.SecurityInfos.PaceInfos[i].ParameterId != nil ==> true))
+//@   ensures "suite-and-domain": result2 == nil ==> paceSuite(result0) && okDomain(result1)
+//@   ensures result2 != nil ==> result0 == nil && result1 == nil
+//@   loop 1 invariant cardAccess != nil && cardAccess.SecurityInfos != nil
+//@   loop 1 invariant (selectedConfig != nil ==> paceSuite(selectedConfig) && selectedPaceInfo != nil) && (selectedPaceInfo != nil ==> selectedConfig != nil)
+//@   assigns nothing
+//@   safety all
+
+// s = D(Kpi, z), CBC with zero IV
+//@ func (paceConfig *PaceConfig) decryptNonce
+//@   props C04 C12
+//@   requires paceSuite(paceConfig)
+//@   ensures "cbc-decrypt-zero-iv": result1 == nil ==> result0 === cbcD(paceConfig.cipher, canonKey(paceConfig.cipher, key), zeros(blockSizeOf(paceConfig.cipher)), encryptedNonce)
+//@   ensures result1 != nil ==> result0 == nil
+//@   ensures fresh(result0)
+//@   assigns nothing
+//@   safety all
+
+// Kpi = KDF(K, 3) with K = SHA-1(MRZ information) or the CAN
+//@ func keyForPassword
+//@   props C04 C12
+//@   requires paceSuite(paceConfig) && pass != nil
+//@   ensures "kdf-counter-3-of-the-password-key": result1 == nil ==> (pass.PasswordType == 1 || pass.PasswordType == 2)
+//@        && result0 === kdfKey(pass.PasswordType == 1 ? hashF(3, pass.Password) : pass.Password, 3, paceConfig.cipher, paceConfig.keyLengthBits)
+//@   ensures result1 != nil ==> result0 == nil
+//@   ensures fresh(result0)
+//@   assigns nothing
+//@   safety all
+
+// G' = s*G + H
+//@ func doGenericMappingEC
+//@   props C04 C14 C12
+//@   requires H != nil && H.X != nil && H.Y != nil && ec != nil
+//@   ensures result != nil && fresh(result) && result.X != nil && result.Y != nil && fresh(result.X) && fresh(result.Y)
+//@   ensures "mapped-generator": result.X.val == ecAddX(ref(ec), ecBaseX(ref(ec), beS(s)), ecBaseY(ref(ec), beS(s)), H.X.val, H.Y.val)
+//@        && result.Y.val == ecAddY(ref(ec), ecBaseX(ref(ec), beS(s)), ecBaseY(ref(ec), beS(s)), H.X.val, H.Y.val)
+//@   assigns nothing
+//@   safety all
+
+// TLV helpers with constructed nodes (dynamic dispatch over node implementations: outside the modelled subset, trusted):
+// dynDO(data, tag): value of data object `tag` inside the 7C template of a response.
+//@ uf dynDO(seq, int) seq
+//@ func encodeDynAuthData
+//@   trusted
+//@   ensures len(result) <= len(data) + 16 && fresh(result)
+//@   assigns nothing
+//@ func decodeDynAuthData
+//@   trusted
+//@   ensures result1 == nil ==> result0 === dynDO(data, tag) && len(result0) <= len(data)
+//@   ensures result1 != nil ==> result0 == nil
+//@   ensures fresh(result0)
+//@   assigns nothing
+// pk7F49(oid, point): public-key data object 7F49{06 oid, 86 point} of ICAO 9303-11 §9.4
+//@ uf pk7F49(seq, seq) seq
+//@ func encodePubicKeyTemplate7F49
+//@   trusted
+//@   ensures result === pk7F49(paceOid, tag86data) && fresh(result)
+//@   assigns nothing
+
+// T = MAC(KSmac, data): retail MAC over method-2 padded data (3DES) or AES-CMAC truncated to 8 octets
+//@ spec func paceMac(alg int, k seq, d seq) seq { alg == 1 ? mac3(k, pad2S(d, 8)) : cmacF(2, k, d, 8) }
+//@ func (paceConfig *PaceConfig) computeAuthToken
+//@   props C04 C12
+//@   requires paceSuite(paceConfig)
+//@   ensures "token": result1 == nil ==> result0 === paceMac(paceConfig.cipher, key, data) && len(result0) == 8
+//@   ensures result1 != nil ==> result0 == nil
+//@   ensures fresh(result0)
+//@   assigns nothing
+//@   safety all
+
+//@ uf oidBytesOf(seq) seq
+//@ func (paceConfig *PaceConfig) computeAuthTokens
+//@   props C04 C12
+//@   requires paceSuite(paceConfig) && ec != nil && okPoint(termPub) && okPoint(chipPub)
+//@   proves "oid": oidBytes === oidBytesOf(paceConfig.oid)
+//@   ensures "tokens-over-the-other-sides-key": err == nil ==> tIfd === paceMac(paceConfig.cipher, ksMac, pk7F49(oidBytesOf(paceConfig.oid), x962(ref(ec), chipPub.X.val, chipPub.Y.val)))
+//@        && tIc === paceMac(paceConfig.cipher, ksMac, pk7F49(oidBytesOf(paceConfig.oid), x962(ref(ec), termPub.X.val, termPub.Y.val)))
+//@   ensures err != nil ==> tIfd == nil && tIc == nil
+//@   ensures fresh(tIfd) && fresh(tIc)
+//@   assigns nothing
+//@   safety all
